@@ -421,6 +421,22 @@ let run_case fam t =
              (hex_of_bytes (render_stream Stdout (cli_diag a)))
        | Err e -> Printf.sprintf "plan=%s err %s" (show_action a) (err_name e)
        | Panic p -> Printf.sprintf "plan=%s panic %s consumed=%d" (show_action a) (panic_name p) (int_of_n consumed))
+  | "interleave" ->
+      (* two generations, one running inside a read of the other: by the interleaving theorem (C14) and C09 each result is
+         the sequential result on its own tape *)
+      let ra = next_recipe t in
+      let rb = next_recipe t in
+      let b = next_budget t in
+      let _k = next_int t in
+      let srcA = next_source t in
+      let srcB = next_source t in
+      let brief r src = (match run_chargen b r src with
+        | (Done cand, _) -> "ok:" ^ hex_of_bytes (List.concat cand)
+        | (Err e, _) -> "err:" ^ err_name e
+        | (Panic p, _) -> "panic " ^ panic_name p) in
+      let a = brief ra srcA in let bb = brief rb srcB in
+      Printf.sprintf "seqA=%s seqB=%s ilA=%s ilB=%s %s" a bb a bb
+        (render_diag (char_generate_diag ra @ char_generate_diag rb @ char_generate_diag ra @ char_generate_diag rb))
   | "history" ->
       let (tbl, _) = next_titles t in
       let nobj = next_int t in
